@@ -34,6 +34,10 @@ type RaftDriveOpts struct {
 	AtEnd func(run *RaftRun) string
 	// Done: stop early (e.g. all requests answered); checked every few steps.
 	Done func(run *RaftRun) bool
+	// OnStart is called once every instance is parked at its first label (the spec's initial state).
+	OnStart func(run *RaftRun)
+	// SpecChannels: see RaftOpts.
+	SpecChannels bool
 }
 
 func pctDraw(t *rapid.T) func(string, int) bool {
@@ -62,6 +66,7 @@ func DriveRaft(t *rapid.T, d RaftDriveOpts) (*RaftRun, string) {
 		ElectPctOf:       map[int]int{},
 		ClientTimeoutPct: rapid.SampledFrom([]int{0, 2, 10}).Draw(t, "clienttimeoutpct"),
 		FalseSuspectPct:  rapid.SampledFrom([]int{0, 0, 5}).Draw(t, "falsesuspectpct"),
+		SpecChannels:     d.SpecChannels,
 	}
 	if rapid.Bool().Draw(t, "uneven-timeouts") {
 		// servers time out at different rates, so that elections are not all split votes
@@ -78,6 +83,9 @@ func DriveRaft(t *rapid.T, d RaftDriveOpts) (*RaftRun, string) {
 		r.Sim.Shutdown()
 		r.Close()
 	}()
+	if d.OnStart != nil {
+		d.OnStart(run)
+	}
 	// workload
 	keys := []string{"k1", "k2", "k3"}[:rapid.IntRange(1, 3).Draw(t, "keys")]
 	tok := 0
